@@ -14,6 +14,18 @@ CLAIMS = {
         "Decides on every path of every public parser function: no success return rests on an end-of-input look-ahead answer unless the parked I/O error was consulted afterwards; plus who-may-construct SyntaxError, the eof tokens and no-dropped-error rules. It decides this clause, not item equality with the fault-free run.",
         "DESIGN.md §4 C04",
     ),
+    "C15": (
+        "proof",
+        "exhaustive abstract interpretation of MIR over the finite variant domain, compared with a specification table",
+        "All 15 combinators are interpreted abstractly over {Fallthrough, Res(Ok), Res(Err)} x {every outcome of the closure parameter}; the computed set of (closure calls with argument provenance, result variant with payload provenance) must equal the specification table row by row, and no outcome outside the table may exist. The domain is finite and enumerated completely, so this decides the property for the code as compiled to MIR.",
+        "DESIGN.md §4 C15",
+    ),
+    "C16": (
+        "proof",
+        "exhaustive abstract interpretation of MIR over (offset label, byte class), behaviour transition systems compared with generated specifications; call-graph effect confinement",
+        "For tabs_or_spaces, newline, next_newline and fixed the transition system (look-ahead offset, 256-bit byte class incl. end-of-input on every edge, returned offset) is extracted from MIR for entry offsets 0 and 1 (patterns '', 'a', 'ab', 'aa' for fixed) and must equal the documented behaviour exactly, including the absence of any look-ahead the documentation does not require; plus who-may-call confinement (no advance/mark/line effects reachable). Offsets above 3 are tracked as a lower bound only.",
+        "DESIGN.md §4 C16",
+    ),
 }
 
 NOT_APPLICABLE = {
